@@ -34,23 +34,23 @@ def prof(profile, n, ops=1, **kw):
 
 
 PROPS = {
-    'C01': dict(quick=dict(profiles=[seq('C01', 160, 40)]), thorough=dict(profiles=[seq('C01', 3200, 100)])),
-    'C02': dict(quick=dict(profiles=[seq('C02', 160, 40)]), thorough=dict(profiles=[seq('C02', 3200, 100)])),
-    'C03': dict(quick=dict(profiles=[seq('C03', 64, 24)]), thorough=dict(profiles=[seq('C03', 1600, 40)])),
-    'C04': dict(quick=dict(profiles=[seq('C04', 160, 30)]), thorough=dict(profiles=[seq('C04', 3200, 60)])),
-    'C05': dict(quick=dict(profiles=[prof('crash', 48, 10)]), thorough=dict(profiles=[prof('crash', 320, 112)]),
+    'C01': dict(quick=dict(profiles=[seq('C01', 480, 40)]), thorough=dict(profiles=[seq('C01', 3200, 100)])),
+    'C02': dict(quick=dict(profiles=[seq('C02', 480, 40)]), thorough=dict(profiles=[seq('C02', 3200, 100)])),
+    'C03': dict(quick=dict(profiles=[seq('C03', 192, 24)]), thorough=dict(profiles=[seq('C03', 1600, 40)])),
+    'C04': dict(quick=dict(profiles=[seq('C04', 480, 30)]), thorough=dict(profiles=[seq('C04', 3200, 60)])),
+    'C05': dict(quick=dict(profiles=[prof('crash', 96, 10)]), thorough=dict(profiles=[prof('crash', 320, 112)]),
                 viol_line_regex=r'^VIOL \d+ \S+ (?!loss\.img)',
                 rule="workloads of publish (with rollover), delete in reader and head segments (rebasing, emptying, tail), sync, close and reopen with "
                      "Recover / eager migration; the FS tap snapshots the directory after every file-system mutation (crash image) and, for every append, "
                      "torn variants (every byte in thorough); sampled images are crashed again inside their recovery (depth 2); each image is opened with "
                      "the real Open(Recover) and observed (scan, NextOffset, Get of every offset, key/time lookups, Stat, recover-again, append+Check); a "
                      "case is one image, distinct by its description line, non-trivial when the operation in flight is a publish or a delete"),
-    'C06': dict(quick=dict(profiles=[prof('crash', 48, 10)]), thorough=dict(profiles=[prof('crash', 320, 112)]),
+    'C06': dict(quick=dict(profiles=[prof('crash', 96, 10)]), thorough=dict(profiles=[prof('crash', 320, 112)]),
                 viol_line_regex=r'^VIOL \d+ \S+ (?!crash\.img)',
                 rule="same workloads; the tap tracks the fsynced length of every file (renames carry it); after every operation power-loss images cut "
                      "files back to lengths between fsynced and current (all files at once, each single file at sampled / every length, random vectors; "
                      "8-byte headers atomic); a case is one loss image, non-trivial when at least one file is actually cut"),
-    'C07': dict(quick=dict(profiles=[prof('damage', 32, 1)]), thorough=dict(profiles=[prof('damage', 640, 2)]),
+    'C07': dict(quick=dict(profiles=[prof('damage', 96, 1)]), thorough=dict(profiles=[prof('damage', 640, 2)]),
                 rule="head segments of 1-6 random messages x 4 index configurations (V2; V1 for truncation): every truncation length, every "
                      "single-byte corruption position after the file header, zero/0xFF/random tails, every index damage; real Segment.Check/"
                      "Recover vs Seg.check/Seg.recover of the Lean byte-level model on the same bytes; a case is one damaged segment, distinct "
@@ -74,11 +74,11 @@ PROPS = {
                 assumptions=["the Go race detector sees the races of the schedules that ran (it is not exhaustive)",
                              "pause points mark the windows the property names; windows inside the kernel (page-wise visibility of one write) are only reached by the free-running part",
                              "Stat is excepted from linearizability, as the property states"]),
-    'C09': dict(quick=dict(profiles=[seq('C09', 96, 30)]), thorough=dict(profiles=[seq('C09', 2400, 60)])),
-    'C10': dict(quick=dict(profiles=[seq('C10', 128, 30)]), thorough=dict(profiles=[seq('C10', 2400, 60)])),
-    'C11': dict(quick=dict(profiles=[seq('C11', 96, 30)]), thorough=dict(profiles=[seq('C11', 1600, 60)])),
-    'C12': dict(quick=dict(profiles=[seq('C12', 160, 40)]), thorough=dict(profiles=[seq('C12', 3200, 100)])),
-    'C13': dict(quick=dict(profiles=[prof('fmt', 4000), seq('C13', 96, 30)]), thorough=dict(profiles=[prof('fmt', 300000), seq('C13', 1600, 80)])),
+    'C09': dict(quick=dict(profiles=[seq('C09', 288, 30)]), thorough=dict(profiles=[seq('C09', 2400, 60)])),
+    'C10': dict(quick=dict(profiles=[seq('C10', 384, 30)]), thorough=dict(profiles=[seq('C10', 2400, 60)])),
+    'C11': dict(quick=dict(profiles=[seq('C11', 288, 30)]), thorough=dict(profiles=[seq('C11', 1600, 60)])),
+    'C12': dict(quick=dict(profiles=[seq('C12', 480, 40)]), thorough=dict(profiles=[seq('C12', 3200, 100)])),
+    'C13': dict(quick=dict(profiles=[prof('fmt', 12000), seq('C13', 288, 30)]), thorough=dict(profiles=[prof('fmt', 300000), seq('C13', 1600, 80)])),
     'C14': dict(quick=dict(profiles=[prof('dread', 32, 8)]), thorough=dict(profiles=[prof('dread', 64, 108)]),
                 rule="multi-segment V2 logs built through the API (rollover 120-300 bytes, key index, time index on/off, deletes); a baseline sweep of every "
                      "read call (Consume from every offset in [-2, next+1] x maxCount {1,3,32}, Get of every offset, GetByKey of every key and an absent "
@@ -92,9 +92,9 @@ PROPS = {
                 assumptions=["index files intact (as the property states)", "the harness computes which records had bytes changed from the intact index (trusted)",
                              "overwrites of 5-8 bytes and changes of the length fields are detected by CRC-32C only with probability 1-2^-32: the theorems "
                              "cover bursts <= 4 bytes outside the length fields; the rest is observed"]),
-    'C15': dict(quick=dict(profiles=[seq('C15', 160, 40)]), thorough=dict(profiles=[seq('C15', 3200, 100)])),
-    'C16': dict(quick=dict(profiles=[seq('C16', 160, 40)]), thorough=dict(profiles=[seq('C16', 3200, 100)])),
-    'C17': dict(quick=dict(profiles=[seq('C17', 160, 40)]), thorough=dict(profiles=[seq('C17', 3200, 100)])),
+    'C15': dict(quick=dict(profiles=[seq('C15', 480, 40)]), thorough=dict(profiles=[seq('C15', 3200, 100)])),
+    'C16': dict(quick=dict(profiles=[seq('C16', 480, 40)]), thorough=dict(profiles=[seq('C16', 3200, 100)])),
+    'C17': dict(quick=dict(profiles=[seq('C17', 480, 40)]), thorough=dict(profiles=[seq('C17', 3200, 100)])),
     'C18': dict(quick=dict(profiles=[prof('notify', 480, 18), prof('blocking', 160, 24)]),
                 thorough=dict(profiles=[prof('notify', 16000, 28), prof('blocking', 3200, 40)]),
                 rule="(a) schedules of Wait/Set/Close calls on the real notify.Offset driven instruction by instruction through the verif pause points "
@@ -109,6 +109,6 @@ PROPS = {
                              "parameters of the model (trusted)",
                              "quiescence is observed by polling with a grace period of 3 s for calls that are due to return",
                              "free-running publishers concurrent with waiters are exercised under C08's free profile, judged there"]),
-    'C19': dict(quick=dict(profiles=[prof('lock', 1600, 12), seq('C19', 48, 24)]), thorough=dict(profiles=[prof('lock', 40000, 16), seq('C19', 800, 50)])),
-    'C20': dict(quick=dict(profiles=[seq('C20', 128, 30)]), thorough=dict(profiles=[seq('C20', 2400, 60)])),
+    'C19': dict(quick=dict(profiles=[prof('lock', 3200, 12), seq('C19', 144, 24)]), thorough=dict(profiles=[prof('lock', 40000, 16), seq('C19', 800, 50)])),
+    'C20': dict(quick=dict(profiles=[seq('C20', 384, 30)]), thorough=dict(profiles=[seq('C20', 2400, 60)])),
 }
